@@ -167,7 +167,8 @@ impl Graph for G {
         let bytes: Vec<u8> = chunks.concat();
         let mut succ: Vec<ChunkDeserializer> = Vec::new();
         let whole: Vec<&[u8]> = vec![&bytes[..]];
-        let bytewise: Vec<&[u8]> = bytes.chunks(1).collect();
+        // one byte per call (streams above 4 KiB: 997 bytes per call, a size that divides no chunk size used here)
+        let bytewise: Vec<&[u8]> = bytes.chunks(if bytes.len() <= 4096 { 1 } else { 997 }).collect();
         let per_chunk: Vec<&[u8]> = chunks.iter().map(|c| &c[..]).collect();
         let mut modes: Vec<(&str, Vec<&[u8]>)> = vec![("whole", whole), ("bytewise", bytewise), ("chunkwise", per_chunk)];
         if bytes.len() <= 40 {
@@ -228,8 +229,8 @@ fn slices(thorough: bool) -> Vec<Slice> {
             csids: vec![(4, 1)], types: vec![8], msids: vec![1], tss: vec![0, 1, 0x100_0000], lens: vec![0, 1, 129, 257], setchunks: vec![1, 2, 128, 4096], init_chunk: 128 });
         v.push(Slice { name: "csid 65 written in its 2-byte and its 3-byte form, csid 320 (its length bytes are those of 65 swapped)",
             csids: vec![(65, 2), (65, 3), (320, 3)], types: vec![9], msids: vec![1], tss: vec![0, 1, 2], lens: vec![1, 3], setchunks: vec![], init_chunk: 2 });
-        v.push(Slice { name: "large chunks (4,097 / 5,000), multi-chunk messages, csid 5",
-            csids: vec![(5, 1)], types: vec![9], msids: vec![1], tss: vec![0, 40], lens: vec![0, 12_000], setchunks: vec![4_097, 5_000], init_chunk: 128 });
+        v.push(Slice { name: "large chunks (4,097 / 70,000), multi-chunk messages, csid 5",
+            csids: vec![(5, 1)], types: vec![9], msids: vec![1], tss: vec![0, 40], lens: vec![0, 12_000, 150_000], setchunks: vec![4_097, 70_000], init_chunk: 128 });
     } else {
         v.push(Slice { name: "csid 3 (1-byte form), all header choices, all timestamps, chunk size 2",
             csids: vec![(3, 1)], types: vec![8, 9], msids: vec![1, 2, 0xFFFF_FFFF], tss: TS13.to_vec(), lens: vec![0, 1, 2, 3, 5], setchunks: vec![], init_chunk: 2 });
@@ -334,6 +335,46 @@ pub fn run(run: &Run) {
             }
             run.count("type_id_scripts", scripts);
         }
+    }
+    // long histories over many chunk stream ids: a message on each of N distinct csids, then compressed headers
+    // (fmt 1, 2, 3) on early, middle and late ones (per-connection tables that are bounded or pruned)
+    {
+        let sl = Slice { name: "many chunk stream ids", csids: vec![], types: vec![], msids: vec![1], tss: vec![], lens: vec![], setchunks: vec![], init_chunk: 128 };
+        let g = G { slice: sl.clone(), c: Counters::new(&NAMES) };
+        let mut scripts = 0u64;
+        for n in [17u32, 64, 257, 300, 1000, 5000] {
+            let form_of = |c: u32| -> u8 { if c <= 63 { 1 } else if c <= 319 { 2 } else { 3 } };
+            let mut cur = St { enc: SpecEncoder::new(), de: ChunkDeserializer::new() };
+            let mut ok = true;
+            let mut done: Vec<Value> = Vec::new();
+            let mut script: Vec<Act> = (2..2 + n).map(|c| Act { csid: c, form: form_of(c), fmt: 0, ty: 9, msid: 1, ts: 1000 + c, len: 3 }).collect();
+            for &c in [2u32, 3, 2 + n / 2, 2 + n - 2, 2 + n - 1].iter() {
+                script.push(Act { csid: c, form: form_of(c), fmt: 1, ty: 9, msid: 1, ts: 1000 + c + 7, len: 4 });
+                script.push(Act { csid: c, form: form_of(c), fmt: 2, ty: 9, msid: 1, ts: 1000 + c + 14, len: 4 });
+                script.push(Act { csid: c, form: form_of(c), fmt: 3, ty: 9, msid: 1, ts: 1000 + c + 21, len: 4 });
+            }
+            for a in script.iter() {
+                let o = g.step(&cur, a);
+                ti += o.impl_steps;
+                tt += 1;
+                if done.len() < 40 {
+                    done.push(g.describe(a));
+                }
+                if let Some((sig, d)) = o.viol.into_iter().next() {
+                    run.violation(&format!("{}/after-{}-chunk-streams", sig, n), &d, json!({"slice": sl.name, "distinct_csids_first": n, "first_ops": done, "failing_op": g.describe(a)}));
+                    ok = false;
+                    break;
+                }
+                cur = match o.succ.into_iter().next() {
+                    Some(x) => x,
+                    None => break,
+                };
+            }
+            if ok {
+                scripts += 1;
+            }
+        }
+        run.count("many_csid_scripts", scripts);
     }
     run.merge_hist(&agg.map());
     run.set("states", json!(ts));
